@@ -20,7 +20,7 @@ META = {
                   "put each label on 0/1/2/15/16/17/62/63/64 bytes and the total on 250..256 bytes, is emitted with the verdicts the grammar "
                   "predicts and replayed (>=3 concretisations each) on the three validators: nil-ness, dynamic error type *AddrError, "
                   "Addr == input (exact string equality, also for rejected inputs of 1023/1024/1025/1500/5000/70000 bytes: over-long labels of every class, long names of 63-byte labels with no / one bad byte at the start, middle, end), *LabelError.Label == input for the label validators, and the hierarchy on the real results. Seeded random/mutated inputs are judged by the same TLA+ operators "
-                  "from abstract(idna.ToASCII(s)). No hidden state: NamesState.tla proves 'every call returns Grammar(kind, argument)' for a stateless and an exact per-validator memo design and refutes it for a memo compared with case folding (U+212A/U+017F look-alike of the name accepted just before, at the 63/253 limits), a memo shared between the validators (lenient then strict on one string) and an unsynchronised memo; the harness replays those histories: every input through all validators strict->lenient and lenient->strict, a sequential second pass over the shuffled inputs in random validator order with k/K->U+212A, s/S->U+017F and ASCII case-flip look-alikes validated right after (and right before) the ASCII name, each judged by idna.ToASCII + grammar, and goroutines validating their own names under -race.",
+                  "from abstract(idna.ToASCII(s)). No hidden state: NamesState.tla proves 'every call returns Grammar(kind, argument)' for a stateless and an exact per-validator memo design and refutes it for a memo compared with case folding (U+212A/U+017F look-alike of the name accepted just before, at the 63/253 limits), a memo shared between the validators (lenient then strict on one string) and an unsynchronised memo; the harness replays those histories: every input through all validators strict->lenient and lenient->strict, a sequential second pass over the shuffled inputs in random validator order with k/K->U+212A, s/S->U+017F and ASCII case-flip look-alikes validated right after (and right before) the ASCII name, each judged by idna.ToASCII + grammar, and goroutines validating their own names under -race. Cold start: LazyInit.tla proves the obligation for eager / sync.Once / fill-then-publish tables and refutes a lazily built table that is published before it is filled; since that history needs the FIRST calls of a process to overlap, the harness starts fresh processes (48 quick / 400 thorough plain, 3 / 12 under -race) in which 8 goroutines released by one barrier make the very first calls of every validator, each on its own sampled generated inputs, judged against the reference / the grammar and the error shape.",
     "level_note": "Uniformity hypothesis: bytes of one class (letter, digit, '-', '_', '.', other) are treated alike; idna.ToASCII is the "
                   "trusted reference named by the property. Exhaustive only up to the stated length / label-count bounds.",
 }
@@ -106,8 +106,15 @@ def judge_trace(ctx, spec_dir, module, cfg, trace_name, trace_path, what, chunks
                        label="trace:%s[%d]" % (what, k), timeout=1500,
                        env={"JAVA_TOOL_OPTIONS": "-Xss64m -Xmx2500m -XX:ParallelGCThreads=2"})
 
+    def one_checked(job):
+        r = one(job)
+        if r.rc == 0 and not r.violated and r.distinct < len(job[2]):
+            # TLC stopped early without saying why (seen once on an overloaded machine): once more
+            r = one(job)
+        return r
+
     with ThreadPoolExecutor(max_workers=len(jobs)) as ex:
-        results = list(ex.map(one, jobs))
+        results = list(ex.map(one_checked, jobs))
     for (k, d, part), r in zip(jobs, results):
         ctx.states += r.distinct
         ctx.transitions += r.generated
@@ -124,13 +131,14 @@ def judge_trace(ctx, spec_dir, module, cfg, trace_name, trace_path, what, chunks
             raise CheckerError("TLC failed on trace spec %s (rc=%d, violated=%s):\n%s"
                                % (module, r.rc, r.violated, "\n".join(r.out.splitlines()[-40:])))
         elif r.distinct < len(part):
-            raise CheckerError("trace spec %s visited %d of %d lines" % (module, r.distinct, len(part)))
+            raise CheckerError("trace spec %s visited %d of %d lines (twice):\n%s"
+                               % (module, r.distinct, len(part), "\n".join(r.out.splitlines()[-40:])))
         shutil.rmtree(d, ignore_errors=True)
     ctx.traces += n
     return n
 
 
-def state_jobs(ctx, d, module, tag, designs, consts):
+def state_jobs(ctx, d, module, tag, designs, consts, invariants=("NoHiddenState", "InputsAsIntended")):
     """'No hidden state' model (NamesState.tla / IPTextState.tla): one TLC job per
     memo design; designs maps name -> True (TLC must prove NoHiddenState) or
     False (TLC must refute it)."""
@@ -139,7 +147,7 @@ def state_jobs(ctx, d, module, tag, designs, consts):
     for design, holds in designs.items():
         cfg = "State_%s.cfg" % design
         write_cfg(ds / cfg, "Spec", dict(consts, Design='"%s"' % design),
-                  invariants=["NoHiddenState", "InputsAsIntended"], properties=["ResultsStable"])
+                  invariants=list(invariants), properties=["ResultsStable"])
         jobs.append({"dir": ds, "module": module, "cfg": cfg, "label": "no-hidden-state:" + design, "workers": 1,
                      "heap_mb": 1500, "expect_ok": holds})
     return jobs
@@ -147,7 +155,7 @@ def state_jobs(ctx, d, module, tag, designs, consts):
 
 def check_refuted(ctx, jobs, results):
     """The memo designs that TLC has to refute must have been refuted."""
-    refuted = []
+    refuted = list(ctx.extra.get("memo_designs_refuted_by_tlc", []))
     for j, r in zip(jobs, results):
         if j.get("expect_ok", True):
             continue
@@ -156,6 +164,23 @@ def check_refuted(ctx, jobs, results):
                                % (j["label"], r.rc, r.violated, "\n".join(r.out.splitlines()[-30:])))
         refuted.append(j["label"].split(":")[1])
     ctx.extra["memo_designs_refuted_by_tlc"] = refuted
+
+
+def report_races(ctx, what, phase):
+    """Turn the race detector's reports (golibs frames only) into mismatches and
+    forget them, so that the next phase reports its own."""
+    golibs, other = ctx.race_reports()
+    if other and not golibs:
+        raise CheckerError("race detector reported a race in the harness only:\n" + other[0][:3000])
+    for rep in golibs:
+        frames = [ln.strip() for ln in rep.splitlines() if str(REPO) + "/" in ln and ".go:" in ln]
+        where = " | ".join(sorted(set("/".join(f.split(" ")[0].split("/")[-2:]) for f in frames))[:4])
+        ctx.mismatch("DATA RACE in %s %s: %s" % (phase, what, where),
+                     "the Go race detector reported a data race with a golibs frame while goroutines validated their own "
+                     "inputs (the validators must not share state, not even lazily initialised state)", rep[:6000])
+    for f in ctx.scratch.glob("race.*"):
+        f.unlink()
+    ctx.extra["race_reports_with_golibs_frames"] = ctx.extra.get("race_reports_with_golibs_frames", 0) + len(golibs)
 
 
 def race_phase(ctx, prop, args, what):
@@ -168,26 +193,61 @@ def race_phase(ctx, prop, args, what):
         ctx.evaluations += s["stress_calls"]
         ctx.extra["concurrent_phase"] = {"goroutines": args[0], "rounds": args[1], "units": s["stress_units"],
                                          "calls": s["stress_calls"]}
-    golibs, other = ctx.race_reports()
-    if other and not golibs:
-        raise CheckerError("race detector reported a race in the harness only:\n" + other[0][:3000])
-    for rep in golibs:
-        frames = [ln.strip() for ln in rep.splitlines() if str(REPO) + "/" in ln and ".go:" in ln]
-        where = " | ".join(sorted(set("/".join(f.split(" ")[0].split("/")[-2:]) for f in frames))[:4])
-        ctx.mismatch("DATA RACE in concurrent %s: %s" % (what, where),
-                     "the Go race detector reported a data race with a golibs frame while goroutines validated their own "
-                     "inputs (the validators must not share state)", rep[:6000])
-    ctx.extra["race_reports_with_golibs_frames"] = len(golibs)
+    report_races(ctx, what, "concurrent")
 
 
-NAMES_DESIGNS = {"none": True, "exact": True, "fold": False, "shared": False, "unsync": False}
+LAZY_DESIGNS = {"eager": True, "once": True, "late": True, "early": False}
+
+
+def lazy_jobs(ctx, d, q, tag):
+    """Cold-start model (LazyInit.tla): lazily built package state; publishing the
+    table before it is filled must be refuted."""
+    return state_jobs(ctx, d, "LazyInit", tag + "_lazy", LAZY_DESIGNS,
+                      {"Procs": "{1, 2}" if q else "{1, 2, 3}", "MaxCalls": 2,
+                       "Inputs": '{"ld", "hy", "host", "bad"}' if q else '{"ld", "hy", "host", "bad", "dig"}'},
+                      invariants=["NoHiddenState", "PublishedIsComplete", "InputsAsIntended"])
+
+
+def cold_phase(ctx, prop, files, q, what="the validators"):
+    """Fresh processes: N goroutines released by one barrier make the very first
+    calls of every validator, each on its own sampled inputs.  Many plain runs
+    (a wrong verdict needs the calls to overlap in time) and a few under -race
+    (an unsynchronised first use is reported even without an overlap)."""
+    files = [f for f in files if f.exists() and f.stat().st_size > 0]
+    if not files:
+        raise CheckerError("no cold-start sample was written")
+    nplain, nrace, ng = (48, 3, 8) if q else (400, 12, 8)
+    ctx.build_vh(False)
+    ctx.build_vh(True)
+
+    def one(k):
+        race = k >= nplain
+        out = ctx.scratch / ("cold%d.res" % k)
+        p = ctx.vh([prop, "coldstart", out, k, ng] + files, race=race, timeout=600,
+                   fatal_key="cold start of " + what)
+        return out if (out.exists() and p.returncode == 0) else None
+
+    with ThreadPoolExecutor(max_workers=4) as ex:
+        outs = list(ex.map(one, range(nplain + nrace)))
+    calls = 0
+    for out in outs:
+        if out is not None:
+            calls += ctx.collect(out)["cold_calls"]
+            out.unlink()
+    report_races(ctx, what, "the cold start of")
+    ctx.evaluations += calls
+    ctx.extra["cold_start_phase"] = {"fresh_processes": nplain, "fresh_processes_under_race": nrace, "goroutines": ng,
+                                     "first_calls": calls}
+
+
+NAMES_DESIGNS = {"none": True, "exact": True, "fold": False, "shared": False, "convfold": False, "unsync": False}
 
 
 def names_state_jobs(ctx, d, q, tag, kinds='{"host", "srv", "dom"}'):
     return state_jobs(ctx, d, "NamesState", tag, NAMES_DESIGNS,
                       {"Procs": "{1, 2}", "MaxCalls": 2, "Kinds": kinds,
-                       "Inputs": '{"k63", "kelvin63", "srvish", "svc"}' if q else
-                                 '{"k63", "K63", "kelvin63", "k64", "srvish", "svc", "s253", "longs253"}'})
+                       "Inputs": '{"k63", "kelvin63", "srvish", "ACEup", "acelow"}' if q else
+                                 '{"k63", "K63", "kelvin63", "srvish", "svc", "s253", "longs253", "ACEup", "acelow", "i60", "doti60"}'})
 
 
 def names_jobs(ctx, d, q, tag, small=False):
@@ -218,6 +278,10 @@ def names_jobs(ctx, d, q, tag, small=False):
                    TailLens="{1, 2, 58, 59, 60, 61, 62, 63, 64}" if q else "{0, 1, 2, 3, 16, 17, 57, 58, 59, 60, 61, 62, 63, 64, 65}"),
               invariants=["Emit", "HierInv", "SanityInv"])
     jobs.append({"dir": dg, "module": "NamesGen", "cfg": "run.cfg", "label": "names-gen-long"})
+    # the label-count boundary: 118..128 one-byte labels (127 = 253 bytes), 80..86 two-byte, 60..65 three-byte
+    dmany = clone_dir(d, tag + "_many")
+    write_cfg(dmany / "run.cfg", "ManySpec", base, invariants=["Emit", "ManyInv", "HierInv"])
+    jobs.append({"dir": dmany, "module": "NamesGen", "cfg": "run.cfg", "label": "names-gen-many", "workers": 2})
     # rejected inputs of 1023..70000 bytes: the error must carry the WHOLE original input
     dh = clone_dir(d, tag + "_huge")
     write_cfg(dh / "run.cfg", "HugeSpec", base, invariants=["Emit", "HugeInv", "HierInv"])
@@ -249,18 +313,19 @@ def run(ctx):
     jobs = [{"dir": dm, "module": "NamesMC", "cfg": "run.cfg", "label": "names-mc"}] + names_jobs(ctx, d, q, "names")
     # "no hidden state": proved for a stateless and an exact per-validator memo design, refuted for a
     # case-folding memo, a memo shared between the validators and an unsynchronised memo.
-    sjobs = names_state_jobs(ctx, d, q, "names")
+    sjobs = names_state_jobs(ctx, d, q, "names") + lazy_jobs(ctx, d, q, "names")
     results = par_tlc(ctx, jobs + sjobs, parallel=5)
     check_refuted(ctx, sjobs, results[len(jobs):])
 
     # 3. replay on the real validators.
+    cold = ctx.scratch / "cold_names.ndjson"
     total = {}
     nvec = 0
     for j in jobs[1:]:
         vec = j["dir"] / "names_vectors.ndjson"
         nvec += count_lines(vec)
         out = ctx.scratch / (j["label"] + ".res")
-        ctx.vh(["c03", "replay-names", vec, out])
+        ctx.vh(["c03", "replay-names", vec, out], env={"VERIF_COLD_OUT": str(cold)})
         s = ctx.collect(out)
         for k, v in s.items():
             if isinstance(v, (int, float)):
@@ -291,7 +356,9 @@ def run(ctx):
     ctx.extra["trace_non_ascii_inputs"] = s["non_ascii_inputs"]
     ctx.extra["history_calls"] = total.get("history_calls", 0) + s.get("history_calls", 0)
 
-    # 5. S: the validators from several goroutines, un-instrumented, under the race detector.
+    # 5. S: cold start (LazyInit.tla) - fresh processes whose first calls overlap - and then the
+    # validators from several goroutines, un-instrumented, under the race detector.
+    cold_phase(ctx, "c03", [cold], q, "ValidateHostname / ValidateSRVDomainName / ValidateDomainName and the label validators")
     race_phase(ctx, "c03", (6, 30) if q else (12, 400), "ValidateHostname / ValidateSRVDomainName / ValidateDomainName")
 
     # shortest failing inputs first (the orchestrator prints the first 20)
